@@ -23,6 +23,7 @@ RULE = ("stream 'chunking': random sequences of non-empty frames (1 B..>64 KiB, 
         "then the real segment layer's receive side and the real coder layer: the trees handed upward must be the trees sent (Props/Pipeline.lean), and every "
         "delivered frame is decoded by the Lean coder model as well; "
         "stream 'zero': headers announcing zero-length frames (model validation only). Non-trivial/distinct = distinct (frame sizes, cut points, tail) tuple.")
+RULE += (' Payloads made of length-prefixed records (a piece of a frame that is itself a well-formed frame), read in pieces ending at the inner boundaries.')
 ASSUMPTIONS = ["CPython bytearray slicing/extend semantics", "struct.pack/unpack '>I'",
                "the lower layer delivers chunks sequentially (one network thread)"]
 EXHAUSTIVE = {"thorough": False}
@@ -107,6 +108,23 @@ def cases(chk):
                 pos += 3 + len(f) // 2
             cuts = sorted(set(cuts + [c for c in hc if 0 < c < avail]))
         yield "chunking", {"frames": frames, "cuts": cuts, "tail": tail}
+    # payloads that look like the framing itself (a frame carrying length-prefixed records, as relayed or tunnelled traffic does), read in
+    # pieces that end exactly where the inner records end: a piece of a frame is then, taken alone, a well-formed frame
+    for _ in range(chk.scale(250, 6000)):
+        frames, cuts, pos = [], [], 0
+        for _i in range(r.choice([1, 2, 2, 3])):
+            body, marks = bytes(r.randrange(256) for _ in range(r.choice([0, 0, 1, 2, 3, 5]))), []
+            for _j in range(r.choice([1, 1, 2, 3])):
+                marks.append(len(body))
+                rec = bytes(r.randrange(256) for _ in range(r.choice([0, 1, 1, 2, 7, 40, 300])))
+                body += be24(len(rec)) + rec
+                marks.append(len(body))
+            body += bytes(r.randrange(256) for _ in range(r.choice([0, 0, 0, 1, 4])))
+            cand = [pos + 3 + m for m in marks] + [pos + 3, pos + 3 + len(body)]
+            cuts.extend(c for c in cand if r.random() < 0.7)
+            frames.append(body.hex())
+            pos += 3 + len(body)
+        yield "chunking", {"frames": frames, "cuts": sorted(set(c for c in cuts if 0 < c < pos)), "tail": 0}
     # a connection lost in the middle of a frame (anywhere: inside the header, right after it, deep in the payload), then a new connection
     # on the same layer whose first frame has a different length
     for _ in range(chk.scale(150, 4000)):
